@@ -725,13 +725,57 @@ func rulePermTables(c *core.Ctx) {
 		})
 		o.Require(startOK, "stdSecPToPerm must start from PermAll and only clear flags")
 	})
-	c.Check(rule, "pdf.Perm.canR2", "revision 2 is chosen only for permission sets it can express (print implies degraded print is irrelevant; annotate/forms, modify/assemble must not differ)", func(o *core.Ob) {
+	c.Check(rule, "pdf.Perm.canR2", "revision 2 is chosen exactly for the permission sets it can express: a revision-2 reader grants the lower permission of each pair with the upper one (print/degraded print, annotate/forms, modify/assemble), so canR2 must be false whenever a lower permission is requested without its upper one — tabulated for all 128 permission sets", func(o *core.Ob) {
 		fn := c.Prog.Func("pdf", "Perm.canR2")
-		src := nodeText(fn)
 		o.At(fn.Site(fn.Decl, ""))
-		for _, pair := range [][2]string{{"PermPrint", "PermPrintDegraded"}, {"PermAnnotate", "PermForms"}, {"PermModify", "PermAssemble"}} {
-			o.Require(strings.Contains(src, pair[0]) && strings.Contains(src, pair[1]), "canR2 does not relate %s and %s", pair[0], pair[1])
+		names := []string{"PermCopy", "PermPrintDegraded", "PermPrint", "PermForms", "PermAnnotate", "PermAssemble", "PermModify"}
+		bit := map[string]int64{}
+		for _, n := range names {
+			bit[n] = c.Prog.ConstInt("pdf", n)
 		}
+		var dom []int64
+		for m := 0; m < 1<<len(names); m++ {
+			var v int64
+			for i, n := range names {
+				if m&(1<<i) != 0 {
+					v |= bit[n]
+				}
+			}
+			dom = append(dom, v)
+		}
+		recv := fn.Decl.Recv.List[0].Names[0].Name
+		pairs := [][2]string{{"PermPrint", "PermPrintDegraded"}, {"PermAnnotate", "PermForms"}, {"PermModify", "PermAssemble"}}
+		n, bad := 0, 0
+		decided, reason := c.Prog.TabulateFunc(fn, map[string][]int64{recv: dom}, func(env map[string]int64, _ int64, got bool) {
+			var perm int64
+			for _, v := range env {
+				perm = v
+			}
+			n++
+			want := true
+			for _, pr := range pairs {
+				if perm&bit[pr[0]] == 0 && perm&bit[pr[1]] != 0 {
+					want = false
+				}
+			}
+			if got != want {
+				bad++
+				if bad <= 3 {
+					var set []string
+					for _, nm := range names {
+						if perm&bit[nm] != 0 {
+							set = append(set, nm)
+						}
+					}
+					o.Fail("canR2(%s) = %v, expected %v", strings.Join(set, "|"), got, want)
+				}
+			}
+		})
+		if !decided {
+			core.Undecided("canR2 could not be tabulated: %s", reason)
+		}
+		o.Count(n)
+		o.Require(n == 128, "expected 128 permission sets, tabulated %d", n)
 	})
 	c.Check(rule, "pdf.Perm/constants", "the permission flags are distinct single bits and PermAll is their union", func(o *core.Ob) {
 		names := []string{"PermCopy", "PermPrintDegraded", "PermPrint", "PermForms", "PermAnnotate", "PermAssemble", "PermModify"}
